@@ -27,6 +27,12 @@ def main():
         return 2
     subprocess.check_call(["git", "-C", "/repo", "apply", os.path.join(d, "patch.diff")])
     results = {}
+    # evidence/ must describe the unchanged tree: keep the files and put them back afterwards
+    saved = {}
+    for c in checks:
+        ev = os.path.join(ROOT, "evidence", f"{c}.json")
+        if os.path.exists(ev):
+            saved[ev] = open(ev).read()
     try:
         for c in checks:
             p = subprocess.run([os.path.join(ROOT, "check"), c, tier], capture_output=True, text=True)
@@ -37,6 +43,13 @@ def main():
                 print("   " + results[c]["first"].replace("\n", "\n   ")[:500])
     finally:
         subprocess.check_call(["git", "-C", "/repo", "checkout", "--", "."])
+        for ev, text in saved.items():
+            open(ev, "w").write(text)
+    rec = os.path.join(d, "detection.json")
+    old = json.load(open(rec)) if os.path.exists(rec) else {}
+    for c, r in results.items():
+        old[f"{c}:{tier}"] = {"exit": r["exit"], "violation_lines": r["violations"], "verdict": "detected" if r["exit"] == 1 and r["violations"] else "missed" if r["exit"] == 0 else "harness-error", "first": r["first"][:400]}
+    json.dump(old, open(rec, "w"), indent=1)
     print(json.dumps({name: results}))
     return 0
 
